@@ -6,6 +6,7 @@ mod conv;
 mod gen;
 mod mon;
 mod oracle;
+mod pgn;
 mod report;
 mod selftest;
 mod util;
